@@ -14,6 +14,7 @@ import (
 	"fmt"
 	"math/rand"
 	"os"
+	"regexp"
 	"sync"
 	"testing"
 	"time"
@@ -46,6 +47,8 @@ type c10Scenario struct {
 	Seed    int64    `json:"seed"`
 	Recs    []c10Rec `json:"recs"`
 }
+
+var c10IDRe = regexp.MustCompile(`"id":(\d+)`)
 
 type c10Run struct {
 	sc   *c10Scenario
@@ -96,16 +99,11 @@ func (i *c10Input) Start(_ pipeline.AnyConfig, p *pipeline.InputPluginParams) {
 }
 func (i *c10Input) Stop()                             {}
 func (i *c10Input) PassEvent(e *pipeline.Event) bool { return i.real.PassEvent(e) }
-func (i *c10Input) Commit(e *pipeline.Event) {
-	id := c10ID(e)
-	i.r.mu.Lock() // serialise commit + observation so that the marks read belong to this commit
-	i.r.mu.Unlock()
-	i.real.Commit(e)
-	marked := i.real.client.MarkedOffsets()
+func c10Heads(client *kgo.Client, topics []string) []map[string]interface{} {
 	heads := []map[string]interface{}{}
-	for t, ps := range marked {
+	for t, ps := range client.MarkedOffsets() {
 		ti := -1
-		for k, name := range i.topics {
+		for k, name := range topics {
 			if name == t {
 				ti = k
 			}
@@ -114,7 +112,14 @@ func (i *c10Input) Commit(e *pipeline.Event) {
 			heads = append(heads, map[string]interface{}{"topic": ti, "part": int(p), "head": eo.Offset, "epoch": int(eo.Epoch)})
 		}
 	}
-	i.r.log("Commit", "id", id, "marks", heads)
+	return heads
+}
+
+func (i *c10Input) Commit(e *pipeline.Event) {
+	id := c10ID(e)
+	i.r.log("CommitCall", "id", id)
+	i.real.Commit(e)
+	i.r.log("Commit", "id", id, "marks", c10Heads(i.real.client, i.topics))
 	i.r.mu.Lock()
 	i.r.done[id] = true
 	i.r.cond.Broadcast()
@@ -123,19 +128,23 @@ func (i *c10Input) Commit(e *pipeline.Event) {
 
 // ---- controller wrapper seen by the real pconsumer: logs In calls around the real Pipeline.In
 type c10Ctl struct {
-	r *c10Run
-	p *pipeline.Pipeline
+	r      *c10Run
+	p      *pipeline.Pipeline
+	client *kgo.Client
+	topics []string
 }
 
 func (c *c10Ctl) In(sid pipeline.SourceID, name string, off pipeline.Offsets, data []byte, isNew bool, meta metadata.MetaData) uint64 {
-	var v struct {
-		ID int `json:"id"`
+	var v struct{ ID int }
+	if m := c10IDRe.FindSubmatch(data); m != nil { // also readable in records the pipeline's decoder refuses
+		fmt.Sscan(string(m[1]), &v.ID)
 	}
-	_ = json.Unmarshal(data, &v)
 	rec := c.r.recs[v.ID]
 	c.r.log("InCall", "id", v.ID, "topic", rec.Topic, "part", int(rec.Part), "off", rec.Off, "epoch", int(rec.Epoch), "src", int(sid))
 	seq := c.p.In(sid, name, off, data, isNew, meta)
 	c.r.log("InRet", "id", v.ID, "ok", seq != 0)
+	// whatever is marked right after the consumer handed the record over (the consumer may mark on its own)
+	c.r.log("Marks", "id", v.ID, "marks", c10Heads(c.client, c.topics))
 	c.r.mu.Lock()
 	if seq != 0 {
 		c.r.acc[v.ID] = true
@@ -245,7 +254,7 @@ func c10RunScenario(sc *c10Scenario) *c10Run {
 	p.Start()
 
 	// one real pconsumer per (topic, partition), fed with fetches in offset order
-	ctl := &c10Ctl{r: r, p: p}
+	ctl := &c10Ctl{r: r, p: p, client: client, topics: topics}
 	type key struct {
 		t int
 		p int32
@@ -253,19 +262,29 @@ func c10RunScenario(sc *c10Scenario) *c10Run {
 	cons := map[key]*pconsumer{}
 	order := []key{}
 	byKey := map[key][]*kgo.Record{}
+	assigned := map[string][]int32{}
 	for _, rec := range sc.Recs {
 		k := key{rec.Topic, rec.Part}
 		if _, ok := byKey[k]; !ok {
 			order = append(order, k)
+			assigned[topics[rec.Topic]] = append(assigned[topics[rec.Topic]], rec.Part)
 		}
 		val := []byte(fmt.Sprintf(`{"id":%d,"cls":"%s"}`, rec.ID, rec.Cls))
+		if rec.Cls == "R" { // refused by the pipeline: not decodable
+			val = []byte(fmt.Sprintf(`{"id":%d,"cls":"R" BROKEN`, rec.ID))
+		}
 		byKey[k] = append(byKey[k], &kgo.Record{Topic: topics[rec.Topic], Partition: rec.Part, Offset: rec.Off, LeaderEpoch: rec.Epoch, Value: val})
 	}
+	// the REAL assignment path creates and starts the per-partition consumers
+	idByTopic := map[string]int{}
+	for i, t := range topics {
+		idByTopic[t] = i
+	}
+	sp := &splitConsume{consumers: make(map[tp]*pconsumer), bufferSize: 16, maxConcurrentConsumers: 16, idByTopic: idByTopic,
+		controller: ctl, logger: zap.NewNop()}
+	sp.Assigned(context.Background(), client, assigned)
 	for _, k := range order {
-		pc := &pconsumer{topic: topics[k.t], partition: k.p, topicID: k.t, quit: make(chan struct{}), done: make(chan struct{}),
-			fetches: make(chan kgo.FetchTopicPartition, 16), controller: ctl, logger: zap.NewNop()}
-		cons[k] = pc
-		go pc.consume()
+		cons[k] = sp.consumers[tp{topics[k.t], k.p}]
 	}
 	rng := rand.New(rand.NewSource(sc.Seed + 7))
 	for _, k := range order {
